@@ -250,9 +250,13 @@ func (fc *flowCtx) interferes(addr ssa.Value, l1, l2 ssa.Instruction) bool {
 				if root == nil {
 					continue
 				}
-				for _, bnd := range w.Bindings {
+				for bi, bnd := range w.Bindings {
 					if rootAlloc(bnd) == root {
-						// captured by reference: any later call could write it
+						// captured by reference: any later call could write it, unless the
+						// closure only ever reads the captured variable
+						if cf, ok := w.Fn.(*ssa.Function); ok && !closureMayWrite(cf, bi, 0) {
+							continue
+						}
 						if fc.canFollow(ins, l2) {
 							return true
 						}
@@ -646,4 +650,54 @@ func retValue(ret *ssa.Return, i int) ssa.Value {
 // isRecoverBlock: the synthetic block that returns the named results after a recovered panic.
 func isRecoverBlock(b *ssa.BasicBlock) bool {
 	return b.Parent().Recover == b
+}
+
+// closureMayWrite: can the closure write (or leak the address of) its idx-th
+// captured variable? Loads and address computations that are only loaded from
+// are reads.
+func closureMayWrite(cf *ssa.Function, idx int, depth int) bool {
+	if cf == nil || idx >= len(cf.FreeVars) || depth > 3 {
+		return true
+	}
+	var onlyRead func(v ssa.Value, d int) bool
+	onlyRead = func(v ssa.Value, d int) bool {
+		if d > 6 {
+			return false
+		}
+		refs := v.Referrers()
+		if refs == nil {
+			return true
+		}
+		for _, r := range *refs {
+			switch u := r.(type) {
+			case *ssa.UnOp:
+				if u.Op != token.MUL {
+					return false
+				}
+			case *ssa.FieldAddr:
+				if !onlyRead(u, d+1) {
+					return false
+				}
+			case *ssa.IndexAddr:
+				if !onlyRead(u, d+1) {
+					return false
+				}
+			case *ssa.DebugRef:
+			case *ssa.MakeClosure:
+				inner, ok := u.Fn.(*ssa.Function)
+				if !ok {
+					return false
+				}
+				for bi, b := range u.Bindings {
+					if b == v && closureMayWrite(inner, bi, depth+1) {
+						return false
+					}
+				}
+			default:
+				return false
+			}
+		}
+		return true
+	}
+	return !onlyRead(cf.FreeVars[idx], 0)
 }
